@@ -160,6 +160,9 @@ func (g *cgen) timeC() *search.TimeConstraint {
 	default:
 		tc.Before = types.Time3339(d.Add(time.Minute))
 	}
+	if time.Time(tc.Before).Year() > 9999 { // (not expressible in RFC 3339)
+		tc.Before = types.Time3339(d)
+	}
 	if b := time.Time(tc.Before); !b.IsZero() && b.Unix() == 0 {
 		// not generated: an upper bound within the second 1970-01-01T00:00:00Z (see directedTimes)
 		tc.Before = types.Time3339(unixEpoch.Add(time.Second))
@@ -235,7 +238,9 @@ func (g *cgen) at() time.Time {
 	}
 	d := g.w.dates[g.rng.Intn(len(g.w.dates))]
 	if g.rng.Intn(2) == 0 {
-		d = d.Add(30 * time.Minute)
+		if d2 := d.Add(30 * time.Minute); d2.Year() <= 9999 { // (year 10000 is not expressible in JSON)
+			d = d2
+		}
 	}
 	return d
 }
